@@ -253,8 +253,9 @@ def project(res, on, names, api, form):
     return {'kind': 'table', 'cols': roles, 'rows': rows}
 
 
-EXPIRY_OF = {'past': lambda today, k: ["d", [today - (2, 3, 30, 400, 9000)[k % 5], (0, 86399)[k % 2], 0]],
-             'future': lambda today, k: ["d", [today + (2, 3, 30, 400, 9000)[k % 5], (0, 86399)[k % 2], 0]],
+# "an expiry date in the past": up to yesterday 23:59:59; today (00:00:00 .. 23:59:59) is not in the past
+EXPIRY_OF = {'past': lambda today, k: ["d", [today - (1, 2, 3, 30, 400, 9000)[k % 6], (0, 86399)[k % 2], 0]],
+             'future': lambda today, k: ["d", [today + (0, 2, 3, 30, 400, 9000)[k % 6], (0, 86399)[k % 2], 0]],
              'none': lambda today, k: ["n", 0]}
 
 
@@ -264,6 +265,13 @@ def observe(job):
 
 
 def observe_all(job):
+    """observe_all_once, made again when midnight passed meanwhile (expiries are dealt relative to the day of the call)"""
+    day = datetime.date.today()
+    obs = observe_all_once(job)
+    return obs if datetime.date.today() == day else observe_all(job)
+
+
+def observe_all_once(job):
     """one public call on freshly rendered objects; returns the observation(s) (pure function of the job).
     With job['first'] (an earlier configuration) that call is made first - it is an observation of its own - and the object
     it really returned is handed over as `data` (when it is a table with one row per key: only that can be written down as
@@ -447,11 +455,6 @@ def s2c(ctx, cases, label):
                 forms = [mk_form(rng, c, inc_ok=inc_ok)]
             if nk == 2 and c['data']['kind'] == 'absent':     # where the order of `on` is pinned: stored column order with / against `on`
                 forms += [alpha_form(rng, c, 'reverse', spelled_cfg(c), inc_ok), alpha_form(rng, c, 'same', spelled_cfg(c), inc_ok)]
-            if api == 'run' and c['data']['kind'] == 'keyed' and c['expiry']['kind'] != 'absent':
-                # previously computed values with expiries: one more rendering with optional parameters off their defaults
-                more = mk_form(rng, c, True if spelled_cfg(c) else None, inc_ok=inc_ok)
-                more['opts'] = rng.choice([i for i, op in enumerate(OPTS[:-1]) if inc_ok or not op['inc']])
-                forms.append(more)
             for form in forms:
                 jobs.append({'c': c, 'api': api, 'form': form, 'salt': rng.randrange(1 << 30)})
                 wants.append(case)
@@ -539,9 +542,9 @@ def rand_cfg(rng, today):
             for k in cached:
                 st = rng.choice(['absent', 'past', 'past', 'future', 'none'])
                 if st == 'past':
-                    rows.append({'key': k, 'v': ["d", [today - rng.choice([2, 3, 30, 400, 9000]), rng.choice([0, 86399]), 0]]})
+                    rows.append({'key': k, 'v': ["d", [today - rng.choice([1, 2, 3, 30, 400, 9000]), rng.choice([0, 86399]), 0]]})
                 elif st == 'future':
-                    rows.append({'key': k, 'v': ["d", [today + rng.choice([2, 3, 30, 400, 9000]), rng.choice([0, 86399]), 0]]})
+                    rows.append({'key': k, 'v': ["d", [today + rng.choice([0, 2, 3, 30, 400, 9000]), rng.choice([0, 86399]), 0]]})
                 elif st == 'none':
                     rows.append({'key': k, 'v': ["n", 0]})
             if rows:
@@ -810,6 +813,13 @@ class Session(object):
 
 
 def observe_session(job):
+    """observe_session_once, made again when midnight passed meanwhile"""
+    day = datetime.date.today()
+    obs = observe_session_once(job)
+    return obs if datetime.date.today() == day else observe_session(job)
+
+
+def observe_session_once(job):
     """replay one session step by step; one observation (api "step") per step, the pool / the last result / the caller's other
     argument objects read through the public API before and after each step"""
     from pyg_base import dictable
@@ -959,7 +969,9 @@ def sessions(ctx, generated, nrand, label):
         jobs.append({'sess': x, 'form': sess_form(rng, x), 'salt': rng.randrange(1 << 30), 'sid': len(sess) + i})
     allobs = pmap_sessions(jobs)
     flat = [o for obs in allobs for o in obs]
-    bad = dict(ctx.validate('Trace_Perdictable', flat))
+    bad = {}
+    for k in range(0, len(flat), 6000):                 # a step carries the pool twice: keep each log small
+        bad.update({i + k: clause for i, clause in ctx.validate('Trace_Perdictable', flat[k:k + 6000])})
     ctx.evals += len(flat)
     line, nfail, ncalls, nkept, nsame = 0, 0, 0, 0, 0
     for job, obs in zip(jobs, allobs):
@@ -973,6 +985,7 @@ def sessions(ctx, generated, nrand, label):
                 exp = job['sess']['hist'][n].get('expect')
                 if exp is not None:              # S2C
                     differs = not ((o['out'] in exp['outs'] or (o['same'] and {'kind': 'data'} in exp['outs'])) and bag(o['calls']) == bag(exp['calls']))
+                    ctx.evals += 1
                     ctx.traces += 0 if differs else 1
                 if o['out'].get('kind') == 'table':
                     ctx.note(('session', json.dumps([o['pool'], o['last'], {k: v for k, v in st.items() if k not in ('shape', 'variant')}], sort_keys=True)))
@@ -1030,8 +1043,21 @@ def run(ctx):
                 'keys, two key columns, 4 inputs, colliding values, cached pairs/lists/dicts, keys respelt per table or per cell) and chained calls '
                 '(both calls are observations; the object returned by the first one - or its rows in another order - handed back as `data`, on the '
                 'same or on new key objects) validated by Trace_Perdictable.  A result is always judged by content, also when it is the very '
-                'object passed as `data`.  Non-trivial = at least one table input and a result with at least '
-                'one row; distinct by (abstract configuration incl. spelling, api).')
+                'object passed as `data`.  OPTIONAL PARAMETERS (PerdictableSess.tla, OptSeq): half of all renderings make the perdictable with '
+                'output_is_input / if_none / include_inputs off their defaults (False, another name, a list of names, a list holding the value '
+                'column; True, a list; include_inputs with the inputs\' values checked per row) - the law reads none of them as an input '
+                '(invariant OptionsAreNotInputs) and TLC prints the include_inputs outcome (run_inc) for every configuration of at most two inputs.  SESSIONS (PerdictableSess.tla / MC_PerdictableSess.tla): the caller keeps '
+                'his tables (a pool X, Y; five ways of naming the payload column; key columns listed with or against `on`), his on / renames / '
+                'defaults objects and his perdictable objects across calls; TLC enumerates call ; [edit] ; call - 6 shapes of call (one table, two, '
+                'ONE table under two parameter names, table + scalar, swapped names, with / without default) as perdictable or join, the edit '
+                'one of payload column replaced in place / table derived from the old one (new payload, fewer rows) / returned table edited in '
+                'place, the second call in the same or the neighbouring shape, without cache or with the table the first call returned handed '
+                'back as `data` (no expiry, one past expiry, past/future/None per key) and rotating optional parameters - and prints what the '
+                'law expects of every call on the tables AS THEY ARE THEN (S2C, == per call); every step, and those of longer randomly drawn '
+                'sessions (2-3 tables, up to 7 steps), is recorded with the pool, the last result, the expiry table, the scalars and the '
+                'on / renames / defaults objects read before and after it and judged by StepVerdict (C2S): the outcome, then argument_changed / '
+                'earlier_result_changed / result_aliases_argument.  Non-trivial = at least one table input and a result with at least '
+                'one row; distinct by (abstract configuration incl. spelling, api) resp. (pool, last result, step).')
     q = ctx.quick
     import time
     t0, c0 = time.time(), time.process_time()
@@ -1049,9 +1075,11 @@ def run(ctx):
     ctx.mc('MC_PerdictableSess', 'MC_PerdictableSess_inplace.cfg', must_fail='InPlaceIsLaw', coverage=False, workers=1)
     if q:
         gen = sorted(ctx.generate('MC_PerdictableSess', 'MC_PerdictableSess_gen_quick.cfg'), key=lambda x: json.dumps(x, sort_keys=True))
-        sessions(ctx, ctx.rng.sample(gen, min(1200, len(gen))), 150, 'quick')
+        sessions(ctx, ctx.rng.sample(gen, min(800, len(gen))), 100, 'quick')
     else:
-        sessions(ctx, ctx.generate('MC_PerdictableSess', 'MC_PerdictableSess_gen_thorough.cfg'), 2000, 'thorough')
+        gen = sorted(ctx.generate('MC_PerdictableSess', 'MC_PerdictableSess_gen_thorough.cfg'), key=lambda x: json.dumps(x, sort_keys=True))
+        wide = [x for x in gen if x['size'][2] == 'all']          # every pair of forms: a seeded sample
+        sessions(ctx, [x for x in gen if x['size'][2] != 'all'] + ctx.rng.sample(wide, min(6000, len(wide))), 2000, 'thorough')
     if q:
         cases = sorted(ctx.generate('MC_Perdictable', 'MC_Perdictable_gen_quick.cfg'), key=canon)
         wide = [c for c in cases if c['size'][:3] == [3, 3, 1]]              # 3 inputs over 3 keys: a seeded sample in the quick tier
@@ -1080,6 +1108,15 @@ def run(ctx):
         'named deviation AnySpelling: which of the supplied spellings of its key a returned row carries is not pinned',
         'named deviation EmptyJoin: None / the supplied data object / an empty table all count as "zero rows"',
         'domain: expiries only on previously computed keys; all-scalar calls carry no data/expiry; when every table input has a default, '
-        'previously computed keys lie inside the join (CacheInsideJoin); previously computed values are never None; expiries are at least '
-        'two days away from today (the code compares with today)',
+        'previously computed keys lie inside the join (CacheInsideJoin); previously computed values are never None (so if_none has nothing '
+        'to act on); "an expiry date in the past" is read on dates: up to yesterday 23:59:59 is past, today 00:00:00 .. 23:59:59 is not '
+        '(random expiries include both boundaries; an observation is made again when midnight passes during it)',
+        'named deviation RenameLeavesCopy: a call with renames = {parameter: column} leaves a copy of that column under the parameter\'s name '
+        'in the caller\'s table (written anew by every such call, so never read stale); any other change of a caller-owned table, scalar, '
+        'expiry table, on / renames object or earlier result is argument_changed',
+        'named deviation DefaultsGainCacheKeys: the caller\'s defaults dict comes back with data = None and expiry = None added',
+        'named deviation IncludedExpiry: with include_inputs the joined expiry column comes along; its cells are not looked at',
+        'sessions: a table that has further columns (forms extra) is handed in only under the parameter its payload column is named after; '
+        'defaults are never sequences; F has no parameter called data / expiry (output_is_input has nothing to show it); function.output '
+        '(dict-valued functions, _dict_output) is outside the statement',
         'on=None/[] with table inputs is outside the statement ("keyed by keys")']
